@@ -138,11 +138,13 @@ CHECKS = {
         level='proof', design='§6 C13',
         text='Theorems (Properties/C13.v): on JSON trees, decode(encode v) is Cedar-equal to v for every json_safe value (any member order of encoded '
              'sets, i.e. any table slot order), identical under the identity order, type tags preserved; the unrestricted statement is REFUTED with the '
-             'witness {"__extn": {...}} (known finding F17). Direct oracle on the Go code: values, entities, entity maps, requests, decisions, '
+             'witness {"__extn": {...}} (known finding F17). Entities and entity maps (Impl/EntityJson.v, ejsonenc / ejsondec correspondences): decoding the '
+             'encoding of an entity map yields the same entities in the sorted order of the encoding, the second encoding is identical, implicit and explicit '
+             'spellings of uids and parents decode to the same store, the document does not depend on map traversal order. Direct oracle on the Go code: values, entities, entity maps, requests, decisions, '
              'diagnostics round-trip and re-encode byte-identically; all spellings (explicit, {fn,arg}, bare string, implicit entity, schema-guided '
              'coercion) decode to equal values.',
         note=TB + 'bytes <-> tree (encoding/json) and net/netip printing are stdlib: the ip round trip is a hypothesis of the theorem. Known: F16, F17, F27, F30.',
-        technique='Coq round-trip proof on JSON trees + Go round-trip / spelling oracle'),
+        technique='Coq round-trip proofs on JSON trees (values, entities, entity maps) + enc/dec correspondences + Go round-trip / spelling oracle'),
     'C14': dict(
         level='proof', design='§6 C14',
         text='Theorems (Properties/C14.v): in the model every Go map is a list in arbitrary order; evaluation (value AND which error surfaces) is invariant '
